@@ -400,6 +400,11 @@ def triples(seed, count, maxcells=3, minors=(5, 4, 2), max_edits=2, ops=None):
             if t is not None:
                 yield t
                 continue
+        if ops is None and u < 0.40:
+            t = focused_triple(b, rnd)
+            if t is not None:
+                yield t
+                continue
         common = b
         if rnd.random() < 0.3:
             # changes made identically on both sides (agreement), e.g. the same cell inserted by both
@@ -446,6 +451,34 @@ def concurrent_insert_triple(b, rnd):
     l, r = copy.deepcopy(b), copy.deepcopy(b)
     l['cells'][pos:pos] = lcells
     r['cells'][pos:pos] = rcells
+    return copy.deepcopy(b), l, r
+
+
+FAMILIES = {
+    'source': ['source_line_add', 'source_line_change', 'source_line_del', 'source_multi_change', 'source_last_lines'],
+    'outputs': ['outputs_clear', 'outputs_append', 'outputs_change', 'execution_count', 'output_metadata'],
+    'metadata': ['metadata_flag', 'metadata_tags', 'falsy_swap'],
+    'attachments': ['attachments'],
+    'cell': ['delete', 'retype', 'duplicate', 'source_line_change', 'outputs_change', 'metadata_flag'],
+}
+
+
+def focused_triple(b, rnd):
+    "both sides edit the same cell with operations of one family (so that real conflicts are frequent)"
+    if not b['cells']:
+        return None
+    fam = rnd.choice(sorted(FAMILIES))
+    cand = list(range(len(b['cells'])))
+    if fam == 'attachments':
+        cand = [i for i, c in enumerate(b['cells']) if c['cell_type'] == 'markdown'] or cand
+    if fam == 'outputs':
+        cand = [i for i, c in enumerate(b['cells']) if c['cell_type'] == 'code'] or cand
+    i = rnd.choice(cand)
+    l, r = b, b
+    for _ in range(rnd.randint(1, 2)):
+        l = apply_edit(l, rnd.choice(FAMILIES[fam]), rnd, where=i)
+    for _ in range(rnd.randint(1, 2)):
+        r = apply_edit(r, rnd.choice(FAMILIES[fam]), rnd, where=i)
     return copy.deepcopy(b), l, r
 
 
